@@ -134,6 +134,12 @@ func (i *Instance) Servers() []ServerListener { return i.servers }
 // Stop stops all servers contained in i. It does NOT
 // execute shutdown callbacks.
 func (i *Instance) Stop() error {
+	// A graceful server's serve loop returns as soon as its stop begins,
+	// while the stop itself goes on until the connections have drained:
+	// keep Wait from returning until the servers really have stopped.
+	i.wg.Add(1)
+	defer i.wg.Done()
+
 	// stop the servers
 	for _, s := range i.servers {
 		if gs, ok := s.server.(GracefulServer); ok {
